@@ -54,27 +54,35 @@ Proof.
   intros Hk. unfold gen_row, rsign. destruct k; try congruence; cbn [inverted PG]; qnorm; ring.
 Qed.
 
-(* non-controllable generator: pinned to its setpoint p_mw * scaling — only under G16gen *)
-Lemma fixed_gen_partial e delta plim x :
-  e_ctrl e = Some false -> G16gen e = true ->
+(* non-controllable generator: pinned (within delta) to its setpoint p_mw * scaling *)
+Lemma fixed_gen_pinned e delta plim x :
+  e_ctrl e = Some false ->
   PMIN (gen_row KGen e delta plim) <= x /\ x <= PMAX (gen_row KGen e delta plim) ->
   e_p e * e_scaling e - delta <= x /\ x <= e_p e * e_scaling e + delta.
 Proof.
-  intros Hc HG. unfold gen_row, G16gen in *. rewrite Hc in *. cbn [PMIN PMAX]. qnorm.
+  intros Hc. unfold gen_row. rewrite Hc. cbn [PMIN PMAX]. qnorm. intros [H1 H2]. split; lra.
+Qed.
+
+(* the rule before the repair (box around the unscaled p_mw) *)
+Lemma fixed_gen_old_partial e delta x :
+  G16gen_old e = true -> e_ctrl e = Some false ->
+  fst (fixed_box_old e delta) <= x /\ x <= snd (fixed_box_old e delta) ->
+  e_p e * e_scaling e - delta <= x /\ x <= e_p e * e_scaling e + delta.
+Proof.
+  intros HG Hc. unfold G16gen_old in HG. rewrite Hc in HG. unfold fixed_box_old. cbn [fst snd]. qnorm.
   apply orb_true_iff in HG. destruct HG as [H|H]; apply qeqb_eq in H; intros [H1 H2].
   - rewrite H. split; lra.
   - rewrite H in *. split; lra.
 Qed.
-
 Definition bad_gen : elem :=
   {| e_p := 1; e_q := 0; e_scaling := 1 # 2; e_min_p := Some 0; e_max_p := Some 2; e_min_q := None; e_max_q := None;
      e_ctrl := Some false |}.
-Lemma fixed_gen_refuted :
-  exists e delta plim x, e_ctrl e = Some false /\ 0 <= delta /\
-    (PMIN (gen_row KGen e delta plim) <= x /\ x <= PMAX (gen_row KGen e delta plim)) /\
+Lemma fixed_gen_old_refuted :
+  exists e delta x, e_ctrl e = Some false /\ 0 <= delta /\
+    (fst (fixed_box_old e delta) <= x /\ x <= snd (fixed_box_old e delta)) /\
     ~ (e_p e * e_scaling e - delta <= x /\ x <= e_p e * e_scaling e + delta).
 Proof.
-  exists bad_gen, 0, 1000, 1. split; [reflexivity|]. split; [lra|]. split.
+  exists bad_gen, 0, 1. split; [reflexivity|]. split; [lra|]. split.
   - vm_compute. split; discriminate.
   - intros [_ H]. vm_compute in H. apply H. reflexivity.
 Qed.
@@ -88,55 +96,70 @@ Proof.
   apply qltb_ge in E. lra.
 Qed.
 
-(* the power-flow model of a dcline satisfies the OPF constraint when loss_percent = 0 (either direction) *)
-Lemma dcline_partial d :
-  G16dc d = true ->
+(* the generator pair of the power-flow model of a dcline satisfies the OPF constraint: every dcline, both directions *)
+Lemma dcline_opf_eq_pf d :
   opf_lhs d (g_to (pf_dcline d)) (g_from (pf_dcline d)) == opf_rhs d.
 Proof.
-  unfold G16dc. intros H. apply qeqb_eq in H.
-  unfold opf_lhs, opf_rhs, pf_dcline. destruct (qltb 0 (d_p d)) eqn:E; cbn [g_to g_from]; qnorm; rewrite H.
-  - field.
+  unfold opf_lhs, opf_rhs, pf_dcline. destruct (qltb 0 (d_p d)) eqn:E; cbn [g_to g_from]; qnorm.
+  - apply qltb_lt in E. rewrite (qabs'_pos _ E). field.
   - field.
 Qed.
 
-(* and the OPF constraint determines the receiving-end power from the sending-end power *)
-Lemma dcline_opf_unique d pg_to pg_to' pg_from :
-  0 <= d_loss_pct d ->
-  opf_lhs d pg_to pg_from == opf_rhs d -> opf_lhs d pg_to' pg_from == opf_rhs d -> pg_to == pg_to'.
+(* and conversely the OPF constraint determines the receiving-end power from the sending-end power: an OPF result
+   that takes the same power at the sending end as the power flow delivers the same power at the receiving end *)
+Lemma dcline_opf_determines_receiving d pg_to pg_from :
+  opf_lhs d pg_to pg_from == opf_rhs d ->
+  (0 < d_p d -> pg_from == g_from (pf_dcline d) -> pg_to == g_to (pf_dcline d)) /\
+  (d_p d <= 0 -> pg_to == g_to (pf_dcline d) -> pg_from == g_from (pf_dcline d)).
 Proof.
-  unfold opf_lhs, opf_rhs. qnorm. intros Hl H1 H2.
-  assert (H : (1 + d_loss_pct d / 100) * (pg_to - pg_to') == 0) by lra.
-  assert (Hp : 0 < 1 + d_loss_pct d / 100).
-  { assert (0 <= d_loss_pct d / 100) by (apply Qle_shift_div_l; lra). lra. }
-  apply Qmult_integral in H. destruct H; lra.
+  intros H. pose proof (dcline_opf_eq_pf d) as Hpf. unfold opf_lhs, opf_rhs in *.
+  destruct (qltb 0 (d_p d)) eqn:E; revert H Hpf; qnorm; intros H Hpf; split; intros Hd Heq.
+  - rewrite Heq in H. lra.
+  - apply qltb_lt in E. lra.
+  - apply qltb_ge in E. lra.
+  - rewrite Heq in H. lra.
 Qed.
 
-(* size of the deviation for a forward flow (p_mw > 0): lhs - rhs = - l (p l + loss_mw), l = loss_percent / 100 *)
-Lemma dcline_deviation d :
+(* the constraint before the repair held at the power-flow point only for loss_percent = 0, with the exact residual *)
+Lemma dcline_old_partial d :
+  G16dc_old d = true -> 0 < d_p d ->
+  opf_lhs_old d (g_to (pf_dcline d)) (g_from (pf_dcline d)) == opf_rhs d.
+Proof.
+  unfold G16dc_old. intros H Hp. apply qeqb_eq in H.
+  unfold opf_lhs_old, opf_rhs, pf_dcline.
+  assert (E : qltb 0 (d_p d) = true) by (apply qltb_lt; exact Hp). rewrite E. cbn [g_to g_from]. qnorm.
+  rewrite H, (qabs'_pos _ Hp). field.
+Qed.
+Lemma dcline_old_deviation d :
   0 < d_p d ->
-  opf_lhs d (g_to (pf_dcline d)) (g_from (pf_dcline d)) - opf_rhs d
+  opf_lhs_old d (g_to (pf_dcline d)) (g_from (pf_dcline d)) - opf_rhs d
   == - (d_loss_pct d / 100) * (d_p d * (d_loss_pct d / 100) + d_loss_mw d).
 Proof.
-  intros Hp. unfold opf_lhs, opf_rhs, pf_dcline.
+  intros Hp. unfold opf_lhs_old, opf_rhs, pf_dcline.
   assert (E : qltb 0 (d_p d) = true) by (apply qltb_lt; exact Hp). rewrite E. cbn [g_to g_from]. qnorm.
   rewrite (qabs'_pos _ Hp). field.
 Qed.
-
-Lemma dcline_refuted :
+Lemma dcline_old_refuted :
   exists d, d_in d = true /\ 0 < d_p d /\
-    ~ opf_lhs d (g_to (pf_dcline d)) (g_from (pf_dcline d)) == opf_rhs d.
+    ~ opf_lhs_old d (g_to (pf_dcline d)) (g_from (pf_dcline d)) == opf_rhs d.
 Proof.
   exists {| d_p := 1; d_loss_pct := 5; d_loss_mw := 0; d_max_p := 2; d_in := true |}.
   split; [reflexivity|]. split; [reflexivity|]. vm_compute. discriminate.
 Qed.
 
-(* constraint rows: with every dcline in service row i carries the data of dcline i; a mixture of in-service and
-   out-of-service dclines raises *)
-Lemma filter_all_length {A} (f : A -> bool) l : forallb f l = true -> List.length (filter f l) = List.length l.
+(* constraint rows: one row per in-service dcline, each stating the constraint of its own dcline *)
+Lemma dcline_rows_spec ds :
+  exists rows, dcline_rows ds = Some rows /\ List.length rows = List.length (filter d_in ds) /\
+    forall k d, nth_error (filter d_in ds) k = Some d ->
+      exists r, nth_error rows k = Some r /\
+        forall pg_to pg_from, fst (fst r) * pg_to + snd (fst r) * pg_from == opf_lhs d pg_to pg_from /\ snd r == opf_rhs d.
 Proof.
-  induction l as [|a l IH]; cbn; [reflexivity|]. intros H. apply andb_true_iff in H. destruct H as [Ha Hl].
-  rewrite Ha. cbn. now rewrite IH.
+  exists (map dc_row (filter d_in ds)). split; [reflexivity|]. split; [apply map_length|].
+  intros k d Hk. exists (dc_row d). split; [now apply map_nth_error|].
+  intros a b. unfold dc_row, opf_lhs, opf_rhs. destruct (qltb 0 (d_p d)); cbn [fst snd]; qnorm; split; try ring; reflexivity.
 Qed.
+
+(* before the repair a mixture of in-service and out-of-service dclines could not be set up (the impl raised) *)
 Lemma filter_length_le {A} (f : A -> bool) l : (List.length (filter f l) <= List.length l)%nat.
 Proof. induction l as [|a l IH]; cbn; [lia|]. destruct (f a); cbn; lia. Qed.
 Lemma filter_length_all {A} (f : A -> bool) l : List.length (filter f l) = List.length l -> forallb f l = true.
@@ -145,19 +168,10 @@ Proof.
   - apply IH. lia.
   - pose proof (filter_length_le f l). lia.
 Qed.
-
-Lemma dcline_rows_all_in ds :
-  ds <> [] -> forallb d_in ds = true ->
-  dcline_rows ds = Some (map (fun d => (qadd 1 (qdiv (d_loss_pct d) 100), 1, qopp (d_loss_mw d))) ds).
+Lemma dcline_rows_old_mixed ds :
+  existsb d_in ds = true -> forallb d_in ds = false -> dcline_rows_old ds = None.
 Proof.
-  intros Hne H. unfold dcline_rows. rewrite (filter_all_length _ _ H).
-  destruct ds as [|d ds]; [congruence|]. cbn [List.length Nat.eqb]. now rewrite Nat.eqb_refl.
-Qed.
-
-Lemma dcline_rows_mixed ds :
-  existsb d_in ds = true -> forallb d_in ds = false -> dcline_rows ds = None.
-Proof.
-  intros He Hf. unfold dcline_rows.
+  intros He Hf. unfold dcline_rows_old.
   destruct (Nat.eqb (List.length (filter d_in ds)) 0) eqn:E0.
   - apply Nat.eqb_eq in E0. apply existsb_exists in He. destruct He as (d & Hin & Hd).
     assert (In d (filter d_in ds)) by (apply filter_In; auto).
